@@ -318,7 +318,11 @@ class C16:
             f.write("Eval vm_compute in match first_diff 0 (map getters_obs pb_o) (map getters_obs pl_o) with "
                     "Some i => (nth_error (map getters_obs pb_o) (N.to_nat i), nth_error pl_o (N.to_nat i)) | None => (None, None) end.\n")
         rc, out = coqc_file(path)
-        return "(two builds differ at, model vs protobuf build at, model vs plain build at), then the differing observations:\n" + out[-3500:]
+        ans = re.split(r"\n\s*=\s", "\n" + out)
+        where = ans[1][:300] if len(ans) > 1 else out[:300]
+        what = ans[2][:3000] if len(ans) > 2 else ""
+        return ("first differing observation (two builds, model vs protobuf build, model vs plain build): %s\n"
+                "the two builds' observations there (protobuf build through the getters normal form, plain build): %s" % (where, what))
 
     # -------------------------------------------------------------------------------- one round
     def round(self, bins, seq_scs, enc_scs, tag, ngather):
